@@ -107,38 +107,35 @@ Proof. vm_compute. repeat split. Qed.
    fault streams that satisfies the property's assumptions: whenever the recorded position
    (k, h) lies on the current view (the block numbered k of the view has hash h), the table is
    exactly the list of the view's admissible events of the blocks [sync start, k], in chain
-   order - none missing, none from abandoned blocks, none duplicated.
-   _partial: the hypothesis [quiet_before] (no admissible event in a block below the sync
-   start, in any view) excludes D9; without it the statement is false
-   (C15_exact_when_canonical_refuted). *)
-Theorem C15_exact_when_canonical_partial :
+   order - none missing, none from abandoned blocks, none duplicated.  The flavour must also clamp
+   the start of a sync to the sync start (all three syncers since the D9 fixes); on the unclamped
+   legacy flavour the statement is false (C15_exact_when_canonical_legacy_unclamped_refuted). *)
+Theorem C15_exact_when_canonical :
   forall (E K : Type) (key : E -> K) (key_eqb : K -> K -> bool) (admissible : E -> bool)
          (merge : pev E -> pev E -> pev E),
     (forall a b, key_eqb a b = true <-> a = b) ->
   forall fl : flavour,
-    fl_swallow fl = false -> 0 < fl_range fl -> 0 <= fl_depth fl -> 0 <= fl_first_start fl ->
+    fl_swallow fl = false -> fl_unclamped fl = false -> 0 < fl_range fl -> 0 <= fl_depth fl -> 0 <= fl_first_start fl ->
   forall (inputs : list (sync_input E)) (v : view E) (faults : list fault * list fault),
     let history := inputs ++ [(v, faults)] in
     universe_ok key admissible fl (map fst history) ->
-    (forall u, In u (map fst history) -> quiet_before admissible u (fl_first_start fl)) ->
     heads_ok key key_eqb admissible merge fl ginit history ->
     forall k h b,
       st_status (g_st (grun key key_eqb admissible merge fl history)) = Some (k, h) ->
       block_at v k = Some b -> bk_hash b = h ->
       st_rows (g_st (grun key key_eqb admissible merge fl history)) = rows_of admissible v (fl_first_start fl) k.
 Proof. exact exact_when_canonical. Qed.
-Print Assumptions C15_exact_when_canonical_partial.
+Print Assumptions C15_exact_when_canonical.
 
 (* instance: the multi-event syncer's registration table (event_trigger_registered_event), for
    every configured depth and range limit; "nothing synced" means synced until
    SyncStartBlockNumber, so the first block fetched is SyncStartBlockNumber + 1 *)
-Theorem C15_exact_when_canonical_multi_partial :
+Theorem C15_exact_when_canonical_multi :
   forall sync_start depth range : Z, 0 <= sync_start -> 0 <= depth -> 0 < range ->
   forall (inputs : list (sync_input uev)) (v : view uev) (faults : list fault * list fault),
     let fl := multi_flavour sync_start depth range in
     let history := inputs ++ [(v, faults)] in
     universe_ok trigger_key trigger_admissible fl (map fst history) ->
-    (forall u, In u (map fst history) -> quiet_before trigger_admissible u (sync_start + 1)) ->
     heads_ok trigger_key ukey_eqb trigger_admissible trigger_merge fl ginit history ->
     forall k h b,
       st_status (g_st (grun trigger_key ukey_eqb trigger_admissible trigger_merge fl history)) = Some (k, h) ->
@@ -150,16 +147,16 @@ Proof.
   apply (exact_when_canonical uev ukey trigger_key ukey_eqb trigger_admissible trigger_merge ukey_eqb_spec
            (multi_flavour sync_start depth range)); simpl; try reflexivity; lia.
 Qed.
-Print Assumptions C15_exact_when_canonical_multi_partial.
+Print Assumptions C15_exact_when_canonical_multi.
 
 (* the same for the multi-event syncer as the keyper runs it, with BOTH processors (registration
    processor and trigger processor, Model/TriggerSync.v: extra RPC calls and an extra database
    read per range, fired rows written in the same transaction, cascade on rollback), for every
    matcher, every iteration order of the processor map and all fault streams.  No D10 exclusion is
-   needed for the registration table. *)
-Theorem C15_exact_when_canonical_multi_both_processors_partial :
+   needed for the registration table (and, since the D9 fixes, no exclusion at all). *)
+Theorem C15_exact_when_canonical_multi_both_processors :
   forall (LogT : Type) (match_log : bytes -> LogT -> bool) (fl : flavour),
-    0 < fl_range fl -> 0 <= fl_depth fl -> 0 <= fl_first_start fl ->
+    0 < fl_range fl -> 0 <= fl_depth fl -> 0 <= fl_first_start fl -> fl_unclamped fl = false ->
   forall (ops : list (top LogT)) (v : view (titem LogT)) (orders : list bool) (rpc db : list fault),
     let history := ops ++ [TSync v orders rpc db] in
     tuniverse_ok fl (top_views history) -> theads_ok match_log fl tginit history ->
@@ -167,17 +164,16 @@ Theorem C15_exact_when_canonical_multi_both_processors_partial :
     forall k h b, st_status (ts_core st) = Some (k, h) -> block_at v k = Some b -> bk_hash b = h ->
       st_rows (ts_core st) = rows_of t_admissible v (fl_first_start fl) k.
 Proof. exact registrations_exact. Qed.
-Print Assumptions C15_exact_when_canonical_multi_both_processors_partial.
+Print Assumptions C15_exact_when_canonical_multi_both_processors.
 
 (* instance: the registry syncer (identity_registered_event) as repaired (D8 fix), with the
    repository's constants *)
-Theorem C15_exact_when_canonical_registry_partial :
+Theorem C15_exact_when_canonical_registry :
   forall sync_start : Z, 0 <= sync_start ->
   forall (inputs : list (sync_input uev)) (v : view uev) (faults : list fault * list fault),
     let fl := registry_flavour sync_start registry_assumed_reorg_depth registry_max_request_block_range false in
     let history := inputs ++ [(v, faults)] in
     universe_ok registry_key registry_admissible fl (map fst history) ->
-    (forall u, In u (map fst history) -> quiet_before registry_admissible u sync_start) ->
     heads_ok registry_key ukey_eqb registry_admissible registry_merge fl ginit history ->
     forall k h b,
       st_status (g_st (grun registry_key ukey_eqb registry_admissible registry_merge fl history)) = Some (k, h) ->
@@ -190,16 +186,15 @@ Proof.
            (registry_flavour sync_start registry_assumed_reorg_depth registry_max_request_block_range false));
     simpl; try reflexivity; try exact Hs; vm_compute; congruence.
 Qed.
-Print Assumptions C15_exact_when_canonical_registry_partial.
+Print Assumptions C15_exact_when_canonical_registry.
 
 (* instance: the Gnosis sequencer syncer (transaction_submitted_event) as repaired (D8 fix) *)
-Theorem C15_exact_when_canonical_sequencer_partial :
+Theorem C15_exact_when_canonical_sequencer :
   forall sync_start : Z, 0 <= sync_start ->
   forall (inputs : list (sync_input uev)) (v : view uev) (faults : list fault * list fault),
     let fl := sequencer_flavour sync_start sequencer_assumed_reorg_depth sequencer_max_request_block_range false in
     let history := inputs ++ [(v, faults)] in
     universe_ok sequencer_key sequencer_admissible fl (map fst history) ->
-    (forall u, In u (map fst history) -> quiet_before sequencer_admissible u sync_start) ->
     heads_ok sequencer_key ukey_eqb sequencer_admissible sequencer_merge fl ginit history ->
     forall k h b,
       st_status (g_st (grun sequencer_key ukey_eqb sequencer_admissible sequencer_merge fl history)) = Some (k, h) ->
@@ -212,7 +207,7 @@ Proof.
            (sequencer_flavour sync_start sequencer_assumed_reorg_depth sequencer_max_request_block_range false));
     simpl; try reflexivity; try exact Hs; vm_compute; congruence.
 Qed.
-Print Assumptions C15_exact_when_canonical_sequencer_partial.
+Print Assumptions C15_exact_when_canonical_sequencer.
 
 (* a history with a fork whose hypotheses hold: two views, the second forks one block below
    the synced block; after the resync the table is the second view's events *)
@@ -225,19 +220,17 @@ Definition c15_ex_history : list (sync_input uev) := [(c15_ex_a, ([], [])); (c15
 Example C15_exact_when_canonical_nonvacuous :
   let fl := registry_flavour 0 10 10000 false in
   registry_universe_ok fl (map fst c15_ex_history) /\
-  (forall u, In u (map fst c15_ex_history) -> quiet_before registry_admissible u 0) /\
   registry_heads_ok fl ginit c15_ex_history /\
   st_status (g_st (registry_grun fl c15_ex_history)) = Some (3, hx "b3") /\
   st_rows (g_st (registry_grun fl c15_ex_history)) = rows_of registry_admissible c15_ex_b 0 3 /\
   List.length (st_rows (g_st (registry_grun fl c15_ex_history))) = 2%nat.
 Proof.
-  simpl. split; [|split; [|split]].
+  simpl. split; [|split].
   - split.
     + intros v [<-|[<-|[<-|[]]]]; (split; [discriminate|]; split; [|split]);
         try (intros b Hb; simpl in Hb; repeat (destruct Hb as [<-|Hb]; [discriminate|]); destruct Hb);
         try (unfold keys_unique; concrete_nodup); vm_compute; reflexivity.
     + intros v w [<-|[<-|[<-|[]]]] [<-|[<-|[<-|[]]]]; concrete_hash_determines.
-  - intros u _. reflexivity.
   - split; [exact I|].
     assert (Hg1 : gstep registry_key ukey_eqb registry_admissible registry_merge (registry_flavour 0 10 10000 false) ginit (c15_ex_a, ([], []))
                   = mkg (mkstate (Some (2, hx "a2")) (rows_of registry_admissible c15_ex_a 0 2)) c15_ex_a) by (vm_compute; reflexivity).
@@ -250,14 +243,16 @@ Proof.
   - vm_compute. repeat split.
 Qed.
 
-(* D9 on the model: every hypothesis of C15_exact_when_canonical_partial except quiet_before
-   holds for this two-view history (sync start 2, assumed depth 3, an event in block 1, synced
-   to block 3, then head 4 on a fork below 3), the position is canonical, and the table holds
-   the event of block 1. *)
-Theorem C15_exact_when_canonical_refuted :
+(* D9 on the legacy flavour (legacy_unclamped_registry_flavour: the start of a sync is not clamped
+   to the sync start, as before the fix commits fe0789c, 4702ec9, efdc9c3): every other hypothesis
+   of C15_exact_when_canonical holds for this two-view history (sync start 2, assumed depth 3, an
+   event in block 1, synced to block 3, then head 4 on a fork below 3), the position is
+   canonical, and the table holds the event of block 1.  On the repaired flavour the same history
+   is exact (d9_history_repaired). *)
+Theorem C15_exact_when_canonical_legacy_unclamped_refuted :
   exists (history : list (sync_input uev)) v,
     let fl := d9_flavour in
-    fl_swallow fl = false /\
+    fl_swallow fl = false /\ fl_unclamped fl = true /\
     In v (map fst history) /\
     registry_universe_ok fl (map fst history) /\
     registry_heads_ok fl ginit history /\
@@ -265,19 +260,18 @@ Theorem C15_exact_when_canonical_refuted :
                   block_at v k = Some b /\ bk_hash b = h /\
                   st_rows (g_st (registry_grun fl history)) <> rows_of registry_admissible v (fl_first_start fl) k.
 Proof. exact exact_when_canonical_refuted. Qed.
-Print Assumptions C15_exact_when_canonical_refuted.
+Print Assumptions C15_exact_when_canonical_legacy_unclamped_refuted.
 
 (* D8 on the legacy flavour (legacy_registry_flavour: syncRange swallows the error of its
    transaction, as on the pinned tree before fix commit 0b3d76a): one Sync over
    three ranges whose first transaction fails ends with a canonical position and a missing
-   event, all hypotheses (including quiet_before) holding. *)
+   event, all other hypotheses holding. *)
 Theorem C15_exact_when_canonical_legacy_refuted :
   exists (history : list (sync_input uev)) v,
     let fl := d8_flavour true in
     fl_swallow fl = true /\
     In v (map fst history) /\
     registry_universe_ok fl (map fst history) /\
-    (forall u, In u (map fst history) -> quiet_before registry_admissible u (fl_first_start fl)) /\
     registry_heads_ok fl ginit history /\
     exists k h b, st_status (g_st (registry_grun fl history)) = Some (k, h) /\
                   block_at v k = Some b /\ bk_hash b = h /\
